@@ -141,7 +141,8 @@ def write_versions(scratch, vers, extra=None):
     for i, v in enumerate(vers):
         d = os.path.join(scratch.path, 'v%d' % i)
         ver = {'apps': v['apps'], 'spec': v['spec'], 'evolutions': v['evolutions'],
-               'deps': v.get('deps') or {}, 'migrations': v.get('migrations') or {}}
+               'deps': v.get('deps') or {}, 'migrations': v.get('migrations') or {},
+               'app_modules': v.get('app_modules') or {}}
         if extra:
             ver.update(extra)
         P.write_project(d, ver)
